@@ -2,3 +2,6 @@ package nbs
 
 const verifBoundN = 2
 const verifBoundJournalBytes = 12
+const verifBoundBatch = 2
+const verifBoundRootRec = 16
+const verifBoundFile = 6
